@@ -397,6 +397,18 @@ def case_stream_search(ctx, rng, idx):
            cls="%s:streams-within-request" % wrapper, detail={**tag, "final_Ns": got_Ns})
     check_relations(ctx, s, "%s(%s)" % (wrapper, name), Hkl, False,
                     {**tag, "final_Ns": got_Ns})
+    # ... and the solution left behind is an ordinary one: the power can be
+    # changed through the public setter afterwards
+    if rng.random() < 0.5:
+        newP = 10.0 ** rng.uniform(-1, 2, size=K)
+        try:
+            s.P = newP
+        except Exception as e:
+            ctx.ev("relations", False, cls="%s(%s):P=-raised-%s" % (wrapper, name, type(e).__name__),
+                   detail={**tag, "exc": repr(e)})
+            return
+        check_relations(ctx, s, "%s(%s)" % (wrapper, name), Hkl, True,
+                        {**tag, "final_Ns": got_Ns, "history": ["wrapper.solve", "P=vector"]})
     if any(x < ns for x in got_Ns):
         ctx.tally("stream-search:%s-ended-with-fewer-streams" % wrapper)
     ctx.sample("stream-search", {**tag, "final_Ns": got_Ns})
